@@ -189,6 +189,9 @@ type Gen struct {
 	emitted int
 	huge    bool
 	seqNo   int
+	// lagScript: a snapshot marker that lags behind the log tail while a segment cut is pending, then a
+	// commit-only save (which performs the cut), a newer snapshot at or below the old tail, and a reopen there
+	lagScript int
 }
 
 // NewGen returns a generator.
@@ -333,6 +336,25 @@ func (g *Gen) Next(o Obs) (Op, bool) {
 	}
 
 	remaining := g.seg - o.TailOff
+	switch {
+	case g.lagScript == 0 && remaining <= 0 && left > 6 && g.commit > g.snapIdx+1 && g.idx > g.snapIdx+2 && g.r.Intn(2) == 0:
+		// the cut is pending (the tail crossed the segment size); the marker names an index well below the tail
+		g.lagScript = 1
+		g.snapIdx++
+		return Op{Kind: "snapshot", SnapIdx: g.snapIdx, SnapTrm: g.terms[g.snapIdx], Note: "lagging-while-cut-pending"}, true
+	case g.lagScript == 1:
+		g.lagScript = 2
+		if g.commit < g.idx {
+			g.advanceCommit()
+		}
+		return Op{Kind: "save", St: g.state(), Note: "commit-only-performs-the-cut"}, true
+	case g.lagScript == 2 && g.commit > g.snapIdx:
+		g.lagScript = 3
+		return g.snapshot("newer-marker-below-the-old-tail"), true
+	case g.lagScript == 3:
+		g.lagScript = 4
+		return Op{Kind: "reopen"}, true
+	}
 	if o.JustCut && g.commit > g.snapIdx && g.r.Intn(5) < 2 {
 		return g.snapshot("after-cut"), true
 	}
